@@ -10,7 +10,7 @@ or junk. `verify` accepts exactly the signature the key produces (BLS signatures
 signature (C08 `threshold_aggregate`), anything else is junk.
 
 ops (see `harness/cmd/drive-dkgrun/main.go`):
-  run <n> <t> <v> <alg> <amts|-> <ver> <flags> <sched>  -> ok | err
+  run <n> <t> <v> <alg> <amts|-> <ver> <flags> <sched> [km=<one of a|u|e|f per node>]  -> ok | err
   val <k> <j:sk,..>                                      -> x=<group secret> pk=1 | not_shamir | …
   rec <k> <ids>                                          -> <recovered> rpk=b
   sig <k> <ids> <msg>                                    -> agg=b ver=b
@@ -19,6 +19,7 @@ ops (see `harness/cmd/drive-dkgrun/main.go`):
   agg <kind> <j> <data>                                  -> ok … | err <class>
   xnew | xinj <r> <a> <c> <tau> <ks> <g|b> | xrun <tau>
   reshare <sched> | addop <k> <sched> | rmop <ids> <part|-> <t'|0> <sched> | replop <pos> <sched>  -> ok | err
+  append <extra> <sched> -> ok | err ;  aval <k> <j:sk,..> -> x=.. pk=1 kept=b | new
   nval <k> <j:sk,..> -> x=.. pk=b same=b fresh=b ;  nrec / nsig as rec / sig on the new shares ;  part <j>
 -/
 import CharonV.Model.Fr
@@ -105,6 +106,8 @@ structure GenSt where
   ids      : List String                        -- operator names
   prev     : List (Option Nat)                  -- position of the operator in the previous generation
   keysOf   : List Nat                           -- key of each position's public share in `PublicShares`
+  nv       : Nat                                -- validators of this generation
+  appended : Nat := 0                           -- validators added by the append that made this generation
   vals     : List ValSt := []
   lockVals : List (DistValidator SPK SSig) := []
 
@@ -112,6 +115,7 @@ structure St where
   n       : Nat := 0
   t       : Nat := 0
   nv      : Nat := 0
+  vlo     : Nat := 0                            -- first validator index of the ceremony being computed (append: the old count)
   amounts : List Nat := []
   pregen  : Bool := true
   live    : Bool := false
@@ -165,12 +169,12 @@ def dedupSorted (xs : List Nat) : List Nat := sortNat xs.eraseDups
 /-- shares of the node with share index `idx`; the public-share map is handed over in descending
 index order (any order must do). -/
 def sharesOf (s : St) (idx : Nat) : List (Share SPK SSK) :=
-  (List.range s.nv).map fun k =>
+  (List.range' s.vlo (s.nv - s.vlo)).map fun k =>
     { pubKey := .group k, secret := ⟨idx, k⟩,
       pubShares := ((List.range s.n).map fun i => (i + 1, SPK.share (i + 1) k)).reverse }
 
-def wds (s : St) : List Nat := List.range s.nv
-def fees (s : St) : List Nat := List.range s.nv
+def wds (s : St) : List Nat := List.range' s.vlo (s.nv - s.vlo)
+def fees (s : St) : List Nat := List.range' s.vlo (s.nv - s.vlo)
 
 def peerMap (s : St) : List (Nat × Nat) := (List.range s.n).map fun i => (i, i + 1)
 
@@ -248,15 +252,18 @@ structure Artifacts where
   ks    : List SSK
   files : List (List (DepositData SPK SSig))
 
-def nodeRun (s : St) (j : Nat) : Except String Artifacts := do
+/-- the deposit data per amount and the lock's validators as node `j` obtains them: the validators
+`vlo..nv-1` of the ceremony being computed. -/
+def glueVals (s : St) (j : Nat) : Except String (List (List (DepositData SPK SSig)) × List (DistValidator SPK SSig)) := do
   let C := symCrypto s.t
+  let cnt := s.nv - s.vlo
   let shares := sharesOf s (j + 1)
   -- what the exchanges return at node j (exchanger model: own set, then every peer's)
   let exchDep ← (List.range s.amounts.length).mapM fun i =>
-    match query (exchangeAt s {} j (sigDepositData + i)) (sigDepositData + i) s.nv with
+    match query (exchangeAt s {} j (sigDepositData + i)) (sigDepositData + i) cnt with
     | some d => pure d
     | none => throw "deposit:exchange"
-  let exchReg ← match query (exchangeAt s {} j sigValidatorRegistration) sigValidatorRegistration s.nv with
+  let exchReg ← match query (exchangeAt s {} j sigValidatorRegistration) sigValidatorRegistration cnt with
     | some d => pure d
     | none => throw "reg:exchange"
   -- signAndAggDepositData (kept for the deposit-data files), then the lock's validators
@@ -266,10 +273,16 @@ def nodeRun (s : St) (j : Nat) : Except String Artifacts := do
   let vals ← match lockValidators C shares (j + 1) (wds s) (fees s) gas s.amounts s.pregen exchDep exchReg with
     | .ok v => pure v
     | .error e => throw ("lock:" ++ errStr e)
-  let agg ← match query (exchangeAt s {} j sigLock) sigLock s.nv with
+  return (dds, vals)
+
+def nodeRun (s : St) (j : Nat) : Except String Artifacts := do
+  let C := symCrypto s.t
+  let shares := sharesOf s (j + 1)
+  let (dds, vals) ← glueVals s j
+  let agg ← match query (exchangeAt s {} j sigLock) sigLock (s.nv - s.vlo) with
     | some data =>
       match lockFromAgg C data shares .lock with
-      | .ok σ => pure (σ == .multi (sortPairs ((List.range s.n).flatMap fun i => (List.range s.nv).map fun k => (i + 1, k))) .lock)
+      | .ok σ => pure (σ == .multi (sortPairs ((List.range s.n).flatMap fun i => (List.range' s.vlo (s.nv - s.vlo)).map fun k => (i + 1, k))) .lock)
       | .error e => throw ("lockhash:" ++ errStr e)
     | none => throw "lockhash:exchange"
   return { vals := vals, agg := agg, ks := keystore shares, files := dds }
@@ -355,8 +368,8 @@ def genShare (g j k : Nat) : SPK := .share (100 * g + j) k
 
 /-- the shares node `j` (0-based position) of generation `g` holds after the reshare: the
 `PublicShares` map is keyed as `processKey` files it (handed over in descending order). -/
-def genSharesOf (s : St) (g : GenSt) (j : Nat) : List (Share SPK SSK) :=
-  (List.range s.nv).map fun k =>
+def genSharesOf (_s : St) (g : GenSt) (j : Nat) : List (Share SPK SSK) :=
+  (List.range g.nv).map fun k =>
     { pubKey := .group k, secret := ⟨100 * g.g + j + 1, k⟩,
       pubShares := ((List.range g.n).map fun r => ((g.keysOf[r]?).getD 0, genShare g.g (r + 1) k)).reverse }
 
@@ -371,29 +384,33 @@ def prevVals (s : St) (rest : List GenSt) : List ValSt :=
   | p :: _ => p.vals
   | [] => s.vals
 
-def genPkId (s : St) (g : GenSt) : SPK → String
-  | .group k => if k < s.nv then s!"g{k}" else "?"
-  | .share j k => if 100 * g.g + 1 ≤ j && j ≤ 100 * g.g + g.n && k < s.nv then s!"s{j - 100 * g.g}.{k}" else "?"
+def genPkId (_s : St) (g : GenSt) : SPK → String
+  | .group k => if k < g.nv then s!"g{k}" else "?"
+  | .share j k => if 100 * g.g + 1 ≤ j && j ≤ 100 * g.g + g.n && k < g.nv then s!"s{j - 100 * g.g}.{k}" else "?"
   | .foreign => "?"
 
-def partStr (s : St) (g : GenSt) (j : Nat) : String :=
+def partStr (s0 : St) (g : GenSt) (j : Nat) : String :=
+  let s := { s0 with nv := g.nv }
   let ns := if s.pregen then join "," ((List.range g.n).map fun i => s!"N{i}") else "-"
   let vals := (List.range g.lockVals.length).filterMap fun k => (g.lockVals[k]?).map fun v =>
     let reg := match v.reg with | none => "-" | some r => regSigId s r.sig
     s!"V{k} pk={genPkId s g v.pubKey} ps={join "," (v.pubShares.map (genPkId s g))} dd={join "," (v.deposits.map fun d => depSigId s d.sig)} reg={reg}"
-  let ks := join "," ((storeKeys (genSharesOf s g j)).map fun sk => genPkId s g (.share sk.j sk.k))
+  -- reshare protocols: `storeKeys` of the new shares; append: existing shares first, then the new ones
+  let all := genSharesOf s g j
+  let old := g.nv - g.appended
+  let ks := join "," ((keystore (appendKeyShares (all.take old) (all.drop old))).map fun sk => genPkId s g (.share sk.j sk.k))
   s!"n={g.n} t={g.t} ops={join "," g.ids} h=1 agg=1 ns={ns} || {join " | " vals} || ks={ks}"
 
 /-- current cluster: (generation number, n, t, operator names, lock validators). -/
-def curCluster (s : St) : Nat × Nat × Nat × List String × List (DistValidator SPK SSig) :=
+def curCluster (s : St) : Nat × Nat × Nat × List String × List (DistValidator SPK SSig) × Nat :=
   match s.gens with
-  | g :: _ => (g.g, g.n, g.t, g.ids, g.lockVals)
-  | [] => (0, s.n, s.t, (List.range s.n).map fun i => s!"o{i}", gen0LockVals s)
+  | g :: _ => (g.g, g.n, g.t, g.ids, g.lockVals, g.nv)
+  | [] => (0, s.n, s.t, (List.range s.n).map fun i => s!"o{i}", gen0LockVals s, s.nv)
 
 /-- a new generation: the lock is assembled by `updateLockValidators` at node 0. -/
-def mkGen (s : St) (gno n t : Nat) (ids : List String) (prev : List (Option Nat)) (keysOf : List Nat)
+def mkGen (s : St) (gno n t nv : Nat) (ids : List String) (prev : List (Option Nat)) (keysOf : List Nat)
     (oldVals : List (DistValidator SPK SSig)) : St × String :=
-  let g : GenSt := { g := gno, n := n, t := t, ids := ids, prev := prev, keysOf := keysOf }
+  let g : GenSt := { g := gno, n := n, t := t, ids := ids, prev := prev, keysOf := keysOf, nv := nv }
   match updateLockValidators oldVals (genSharesOf s g 0) with
   | none => (s, "err")
   | some lv => ({ s with gens := { g with lockVals := lv } :: s.gens }, "ok")
@@ -403,19 +420,19 @@ def protoStep (s : St) (f : List String) : St × String :=
   -- the code as it is: `updateNodeSignaturesProtocolStep` stores node signatures in a lock whose version
   -- (v1.6.0) has none and then fails `VerifySignatures` (fixes/C11-protocol-v16-node-signatures.diff)
   if !s.pregen then (s, "err") else
-  let (g0, n, t, ids, oldVals) := curCluster s
+  let (g0, n, t, ids, oldVals, nv) := curCluster s
   let gno := g0 + 1
   let ident := (List.range n).map fun i => some i
   match f with
   | ["reshare", _sched] =>
     -- same operators, same threshold
-    mkGen s gno n t ids ident ((List.range n).map (· + 1)) oldVals
+    mkGen s gno n t nv ids ident ((List.range n).map (· + 1)) oldVals
   | ["addop", k, _sched] =>
     match k.toNat? with
     | some k =>
       if k < 1 then (s, "err") else
       let new := (List.range k).map fun i => s!"a{gno}.{i}"
-      mkGen s gno (n + k) t (addOperators ids new) (ident ++ (List.range k).map fun _ => none)
+      mkGen s gno (n + k) t nv (addOperators ids new) (ident ++ (List.range k).map fun _ => none)
         ((List.range (n + k)).map (· + 1)) oldVals
     | none => (s, "bad-op")
   | ["rmop", rm, part, newT, _sched] =>
@@ -431,7 +448,7 @@ def protoStep (s : St) (f : List String) : St × String :=
         -- at least the old threshold of share holders takes part; the new threshold fits the new cluster
         if newN < 1 || newN + part.length < t || t' < 1 || t' > newN then (s, "err") else
         let keys := remainingShareIdx ids removing
-        mkGen s gno newN t' newOps (keys.map fun i => some (i - 1)) keys oldVals
+        mkGen s gno newN t' nv newOps (keys.map fun i => some (i - 1)) keys oldVals
     | _, _, _ => (s, "bad-op")
   | ["replop", pos, _sched] =>
     match pos.toNat? with
@@ -443,23 +460,38 @@ def protoStep (s : St) (f : List String) : St × String :=
         match replaceOperator ids old s!"a{gno}.0" with
         | none => (s, "err")
         | some newOps =>
-          mkGen s gno n t newOps ((List.range n).map fun i => if i == pos then none else some i)
+          mkGen s gno n t nv newOps ((List.range n).map fun i => if i == pos then none else some i)
             ((List.range n).map (· + 1)) oldVals
     | none => (s, "bad-op")
   | _ => (s, "bad-op")
 
+/-- keymanager mode: what a keymanager of the given mode answers to successive import requests. -/
+def kmResponses : Char → List Bool
+  | 'a' => [true, true, true, true]
+  | 'f' => [false, true, true, true]
+  | _ => [false, false, false, false]
+
+def runStep (s : St) (n t nv alg amts ver flags : String) (km : Option String) : St × String :=
+  match n.toNat?, t.toNat?, nv.toNat?, parseIds amts with
+  | some n, some t, some nv, some amts =>
+    let comp := flags.contains 'c'
+    -- keymanager mode: `Run` fails on a node whose (single) import request is refused; the ceremony needs every node
+    let kmOk := match km with
+      | none => true
+      | some modes => modes.length == n &&
+          ceremonyOk (modes.toList.map fun m => runWritesKeys true (kmResponses m) true)
+    if !validCfg n t nv alg amts ver comp || !kmOk then ({ s with live := false, vals := [], ex := [], gens := [] }, "err")
+    else
+      let m := (minorOf ver).getD 0
+      ({ n := n, t := t, nv := nv, amounts := amountsOf amts m comp, pregen := 7 ≤ m, live := true,
+         ex := (List.range n).map fun _ => {} }, "ok")
+  | _, _, _, _ => (s, "bad-op")
+
 def step (s : St) (line : String) : St × String :=
   match line.splitOn " " with
-  | ["run", n, t, nv, alg, amts, ver, flags, _sched] =>
-    match n.toNat?, t.toNat?, nv.toNat?, parseIds amts with
-    | some n, some t, some nv, some amts =>
-      let comp := flags.contains 'c'
-      if !validCfg n t nv alg amts ver comp then ({ s with live := false, vals := [], ex := [] }, "err")
-      else
-        let m := (minorOf ver).getD 0
-        ({ n := n, t := t, nv := nv, amounts := amountsOf amts m comp, pregen := 7 ≤ m, live := true,
-           ex := (List.range n).map fun _ => {} }, "ok")
-    | _, _, _, _ => (s, "bad-op")
+  | ["run", n, t, nv, alg, amts, ver, flags, _sched] => runStep s n t nv alg amts ver flags none
+  | ["run", n, t, nv, alg, amts, ver, flags, _sched, km] =>
+    if km.startsWith "km=" then runStep s n t nv alg amts ver flags (some (km.drop 3).toString) else (s, "bad-op")
   | ["val", v, sks] =>
     if !s.live then (s, "bad-op") else
     match v.toNat?, parseSks sks with
@@ -584,10 +616,50 @@ def step (s : St) (line : String) : St × String :=
       ({ s with ex := ex' }, join " | " outs)
     | none => (s, "bad-op")
   | "reshare" :: _ | "addop" :: _ | "rmop" :: _ | "replop" :: _ => protoStep s (line.splitOn " ")
+  | ["append", extra, _sched] =>
+    if !s.live then (s, "bad-op") else
+    match extra.toNat? with
+    | some extra =>
+      if extra < 1 then (s, "err") else
+      let (g0, n, t, ids, oldVals, nv) := curCluster s
+      let gno := g0 + 1
+      -- the add-validators ceremony: the glue of `Run` for the validators nv .. nv+extra-1 among the current operators
+      let s' : St := { s with n := n, t := t, vlo := nv, nv := nv + extra, gens := [], ex := [], vals := [] }
+      match glueVals s' 0 with
+      | .error e => (s, "model-error " ++ e)
+      | .ok (_, newVals) =>
+        -- every public share is named by the position of its holder in this generation
+        let rename (v : DistValidator SPK SSig) : DistValidator SPK SSig :=
+          { v with pubShares := v.pubShares.map fun p => match p with
+              | .share j k => .share (100 * gno + j % 100) k
+              | x => x }
+        let g : GenSt := { g := gno, n := n, t := t, ids := ids, prev := (List.range n).map fun i => some i,
+                           keysOf := (List.range n).map (· + 1), nv := nv + extra, appended := extra,
+                           lockVals := (appendLockValidators oldVals newVals).map rename }
+        ({ s with gens := g :: s.gens }, "ok")
+    | none => (s, "bad-op")
+  | ["aval", v, sks] =>
+    if !s.live then (s, "bad-op") else
+    match s.gens, v.toNat?, parseSks sks with
+    | g :: rest, some v, some sks =>
+      if g.appended == 0 || v ≥ g.nv then (s, "bad-op") else
+      let isOld := v < g.nv - g.appended
+      let old := (prevVals s rest).find? (·.v == v)
+      if isOld && old.isNone then (s, "bad-op") else
+      match checkOut g.n g.t sks with
+      | .error e => (s, e)
+      | .ok x =>
+        let vs := (g.vals.filter (·.v != v)) ++ [{ v := v, shares := sks, x := x }]
+        let tail := match old with
+          | some o => if isOld then "kept=" ++ b01 (o.shares == sks) else "new"
+          | none => "new"
+        ({ s with gens := { g with vals := vs } :: rest }, s!"x={toHex32 x} pk=1 {tail}")
+    | _, _, _ => (s, "bad-op")
   | ["nval", v, sks] =>
     if !s.live then (s, "bad-op") else
     match s.gens, v.toNat?, parseSks sks with
     | g :: rest, some v, some sks =>
+      if g.appended != 0 then (s, "bad-op") else
       match (prevVals s rest).find? (·.v == v) with
       | none => (s, "bad-op")
       | some old =>
